@@ -46,6 +46,14 @@ class Jail:
             with open(p, "w") as f:
                 f.write(STUB)
             os.chmod(p, 0o755)
+        # <root>/evilbin: the same names, logged as "evil:<name>" - what runs when PATH is redirected there
+        self.evilbin = os.path.join(root, "evilbin")
+        os.makedirs(self.evilbin)
+        for name in stub_names:
+            p = os.path.join(self.evilbin, name)
+            with open(p, "w") as f:
+                f.write(STUB.replace('rec="${0##*/}"', 'rec="evil:${0##*/}"'))
+            os.chmod(p, 0o755)
         for sh in ("bash", "sh"):
             os.symlink(BASH, os.path.join(self.bin, sh))
         for tool in real_tools:
